@@ -7,7 +7,7 @@ import os
 import re
 from typing import Dict, List, Set
 
-from ..awaitflow import MA_SLOTS, SYNC_WORLD, AwaitFlow
+from ..awaitflow import MA_SLOTS, SYNC_WORLD, AwaitFlow, effective_ma_slots
 from ..context import Ctx
 from ..kernel import expand, xshow
 from ..loader import AnalysisError, FuncInfo, Program, norm_stmt
@@ -246,7 +246,7 @@ def rule_await(ctx: Ctx):
     rep.count("ma_legal_uses", af.legal_uses)
     rep.count("sync_world_consumptions", len(af.sync_world_consumptions))
     rep.extra["ma_summaries_returning_awaitable"] = sorted(k.split("::")[1] for k in af.returns_ma)
-    rep.extra["ma_slots"] = MA_SLOTS
+    rep.extra["ma_slots"] = effective_ma_slots(ctx)
     rep.extra["sync_world"] = SYNC_WORLD
     flagged = {f.fn.key for f in af.findings}
     for fn in af.functions_with_sources:
@@ -265,34 +265,39 @@ def rule_flag(ctx: Ctx):
     exempt = {"event_method": "wraps an Event call: awaitable only under the async engine, where wrappers await awaitable results",
               "attr_method": "plain attribute read (attrgetter), not a call of a user function"}
     n = 0
+    from ..shapes import closure_models
+
+    slots = effective_ma_slots(ctx)
     for b in ctx.p.all_functions():
         if isinstance(b.node, ast.Lambda) or ctx.is_new(b):
             continue
-        cls_ = [c for c in b.module.all_functions if c.parent is b]
-        ma_closures = []
-        for c in cls_:
-            for node in own_nodes(c.node):
-                if isinstance(node, ast.Call):
-                    res = ctx.r.resolve_in(node, c)
-                    if any(t in MA_SLOTS for t in res.tags):
-                        ma_closures.append(c)
-                        break
-        if not ma_closures:
+        has_nested = any(c.parent is b for c in b.module.all_functions)
+        returns_obj = any(isinstance(r, ast.Return) and isinstance(r.value, ast.Call) and isinstance(r.value.func, ast.Name)
+                          and r.value.func.id in ctx.p.classes and ctx.p.lookup_method(ctx.p.classes[r.value.func.id], "__call__") is not None
+                          for r in own_nodes(b.node))
+        if not (has_nested or returns_obj):
             continue
-        names = {c.name for c in ma_closures}
-        # the closure must be what the builder hands out (directly, or through a labelling helper that returns it)
+        try:
+            cms = closure_models(ctx, b)
+        except AnalysisError:
+            continue
+        ma_models = []
+        for m in cms:
+            for node in own_nodes(m.fn.node):
+                if isinstance(node, ast.Call):
+                    res = ctx.r.resolve_in(node, m.fn)
+                    if any(t in slots for t in res.tags):
+                        ma_models.append(m)
+                        break
+        if not ma_models:
+            continue
+        names = {m.fn.name if m.obj.startswith("$def:") else m.obj.split(":")[1].split("@")[0] for m in ma_models}
         flagged = {}
-        handed_out = False
-        for p in ctx.paths(b, inline=None, exc_edges="none"):
-            if p.kind != "return":
-                continue
-            v = p.value
-            if isinstance(v, ast.Name) and v.id.startswith("$def:") and v.id.split(".")[-1] in names:
-                handed_out = True
-            for e in p.of("store"):
-                if e.x.get("attr") == "is_coroutine" and isinstance(e.term.value, ast.Name) and e.term.value.id.startswith("$def:") \
-                        and e.term.value.id.split(".")[-1] in names:
-                    flagged[show(e.x["value"])] = e
+        handed_out = True
+        for m in ma_models:
+            if "is_coroutine" in m.attrs:
+                v, e = m.attrs["is_coroutine"]
+                flagged[show(v)] = e
         if not handed_out:
             continue
         n += 1
